@@ -24,6 +24,8 @@ func init() {
 }
 
 func runC14(p *Prog, r *Report) {
+	// R9: how long a source is remembered follows from its own rates on every request (shared with C03.R10)
+	r.Borrow(p, runC03, map[string]string{"C03.R10": "C14.R9"}, nil)
 	// R8: a bucket owns its numbers: what one source's update changes is that source's bucket only (shared with C03.R3 / C03.R9)
 	r.Borrow(p, runC03, map[string]string{"C03.R3": "C14.R8", "C03.R9": "C14.R8"}, nil)
 	// R7: what a source is limited by depends on its own requests only: its buckets are updated from the rates of its own request on every hit (shared with C03.R2)
@@ -468,6 +470,28 @@ func c14Eviction(p *Prog, r *Report) {
 			r.Check(!ReachableAvoiding(f, nil, c, isExp, nil), "C14.R3", "collections.TTLMap: expired entries are dropped before any live one, in "+FName(f), p.InstrPos(c), "RemoveExpired precedes RemoveLastUsed", "a live entry can be evicted while expired ones remain")
 		}
 	}
+	// every insertion re-establishes the heap order: PriorityQueue.Push reaches container/heap.Push on every path and
+	// never appends to the underlying array directly (an "already in place" fast path compares with the last array
+	// element, which is not the new slot's parent)
+	if ps := p.MethodOf(pq, "Push"); ps != nil && ps.Blocks != nil {
+		r.Fn(FName(ps))
+		isHeapPush := func(in ssa.Instruction) bool {
+			cc := CallCommonOf(in)
+			return cc != nil && ccIs(cc, "container/heap", "Push")
+		}
+		var direct ssa.Instruction
+		for _, c := range Calls(ps) {
+			if f := c.Common().StaticCallee(); f != nil && f.Name() == "Push" && !isHeapPush(c) && p.InModule(f) {
+				direct = c
+			}
+			if bi, ok := c.Common().Value.(*ssa.Builtin); ok && bi.Name() == "append" {
+				direct = c
+			}
+		}
+		ret := ReturnReachableAvoiding(ps, nil, isHeapPush, nil)
+		r.Check(ret == nil && direct == nil, "C14.R3", "collections.PriorityQueue.Push: every insertion goes through heap.Push", p.FuncPos(ps), "heap.Push on every path, no direct append",
+			"an element can enter the queue without heap.Push"+atInstr(p, direct)+posOf(p, ret)+": the heap order is broken and the entry evicted at capacity is not the one nearest to expiry")
+	}
 	// RemoveLastUsed pops the heap; Less is strict on Priority
 	if rl := p.MethodOf(tm, "RemoveLastUsed"); rl != nil {
 		r.Fn(FName(rl))
@@ -566,6 +590,7 @@ func c14Eviction(p *Prog, r *Report) {
 func mutantsC14() []Mutant {
 	tm, pq := "internal/holsterv4/collections/ttlmap.go", "internal/holsterv4/collections/priority_queue.go"
 	return []Mutant{
+		{Name: "pq-push-fast-path", File: "internal/holsterv4/collections/priority_queue.go", Old: "func (p *PriorityQueue) Push(el *PQItem) {\n", New: "func (p *PriorityQueue) Push(el *PQItem) {\n\tif n := p.impl.Len(); n > 0 && el.Priority >= (*p.impl)[n-1].Priority {\n\t\tp.impl.Push(el)\n\t\treturn\n\t}\n", Expect: "C14.R3"},
 		{Name: "evict-after-insert", File: "internal/holsterv4/collections/ttlmap.go", Old: "\tm.expiryTimes.Push(heapEl)\n\treturn nil\n", New: "\tm.expiryTimes.Push(heapEl)\n\tif len(m.elements) > m.capacity {\n\t\tm.freeSpace(1)\n\t}\n\treturn nil\n", Expect: "C14.R3"},
 		{Name: "update-only-when-rates-differ-from-default", File: "ratelimit/tokenlimiter.go", Old: "\t\tbucketSet.Update(effectiveRates)\n", New: "\t\tif effectiveRates != tl.defaultRates {\n\t\t\tbucketSet.Update(effectiveRates)\n\t\t}\n", Expect: "C14.R7"},
 		{Name: "acquire-tests-total", File: "connlimit/connlimit.go", Old: "\tif connections >= cl.maxConnections {", New: "\tif connections >= cl.maxConnections || cl.totalConnections >= 4*cl.maxConnections {", Expect: "C14.R2"},
